@@ -12,22 +12,19 @@ func (x *Exec) havocVal(t types.Type, depth int) Value {
 	case *types.Basic:
 		switch {
 		case u.Info()&types.IsBoolean != 0:
-			b := x.FreshBV("hb", 1)
-			x.inputs = append(x.inputs, b)
+			b := x.freshInput("hb", 1)
 			return bvcmp("=", b, BV(1, 1))
 		case u.Info()&types.IsString != 0:
-			b := x.FreshBV("hs", 8)
-			x.inputs = append(x.inputs, b)
+			b := x.freshInput("hs", 8)
 			return &Str{b: []*Term{b}}
 		case u.Info()&types.IsFloat != 0:
 			f := x.FreshFP("hf")
 			x.inputs = append(x.inputs, f)
+			x.trace = append(x.trace, traceItem{t: f})
 			return f
 		case u.Info()&types.IsInteger != 0:
 			w, _ := width(t)
-			v := x.FreshBV("hi", w)
-			x.inputs = append(x.inputs, v)
-			return v
+			return x.freshInput("hi", w)
 		}
 		return zero(t)
 	case *types.Struct:
